@@ -29,6 +29,7 @@ I(p)   == T("int", p, <<>>)
 Str(p) == T("str", p, <<>>)
 
 Ints   == {<<0, <<>>>>, <<1, <<5>>>>, <<-1, <<129>>>>, <<1, <<128, 0, 0, 0>>>>}
+EnumInts == {<<0, <<>>>>, <<1, <<5>>>>, <<-1, <<129>>>>, <<1, <<127, 255, 255, 255>>>>}   \* Enumerated is read back as int32
 Bools  == {TRUE, FALSE}
 PStrs  == {<<>>, <<97, 32, 98>>}                    \* "", "a b"
 AStrs  == {<<>>, <<97, 98>>, <<97, 42>>, <<195, 169>>}   \* "", "ab", "a*", "é"  (auto string type)
@@ -50,7 +51,7 @@ LargeMenu == {
   <<I(Cls(Expl(P, 5), "app")), Ints>>, <<I(Cls(Expl(P, 5), "priv")), Ints>>,
   <<I(Expl(Def(P, 0, <<>>), 6)), Ints>>, <<I(Tag(P, 31)), Ints>>, <<I(Expl(P, 200)), Ints>>,
   <<T("bigint", P, <<>>), Ints \cup {<<1, <<1, 0, 0, 0, 0, 0, 0, 0, 0>>>>, <<-1, <<1, 0, 0, 0, 0, 0, 0, 0, 0>>>>}>>,
-  <<T("enum", P, <<>>), Ints>>, <<T("enum", Opt(P), <<>>), Ints>>,
+  <<T("enum", P, <<>>), EnumInts>>, <<T("enum", Opt(P), <<>>), EnumInts>>,
   <<T("bool", P, <<>>), Bools>>, <<T("bool", Opt(P), <<>>), Bools>>,
   <<T("flag", Opt(P), <<>>), Bools>>, <<T("flag", Expl(Opt(P), 7), <<>>), Bools>>,
   <<Str(P), AStrs>>, <<Str(St(P, "ia5")), {<<>>, <<97, 64, 98>>}>>, <<Str(St(P, "printable")), PStrs \cup {<<42>>}>>,
